@@ -231,6 +231,8 @@ def cmd_check(pid, tier):
         if pid in props.META:
             level = props.META[pid][0]
             agg = check_hx(pid, tier, seed)
+            import others
+            others.wx_into(agg, pid, tier)
             if not agg["violations"]:
                 if agg.get("unconfirmed"):
                     raise MachineryError("violations were observed that do not replay deterministically, and nothing else was found: " + " | ".join(agg["unconfirmed"][:3]))
